@@ -16,7 +16,7 @@ import (
 
 var verifSchemeNames = []string{"A", "B", "U"} // U is not declared in components
 
-// verifSecList draws a security requirement list: nil, empty, [{}], [{A}], [{A,B}], [{A},{B}], [{U}], [{U},{B}]
+// verifSecList draws a security requirement list: nil, empty, [{}], [{A}], [{A,B}], [{A},{B}], [{U}], [{U},{B}], [{A,U}]
 func verifSecList(p string, n int) (*openapi3.SecurityRequirements, bool) {
 	mk := func(reqs ...[]string) *openapi3.SecurityRequirements {
 		out := openapi3.SecurityRequirements{}
@@ -46,21 +46,23 @@ func verifSecList(p string, n int) (*openapi3.SecurityRequirements, bool) {
 		return mk([]string{"U"}), true
 	case 7:
 		return mk([]string{"U"}, []string{"B"}), true
+	case 8:
+		return mk([]string{"A", "U"}), true
 	}
 	return nil, false
 }
 
 type verifAuthCall struct{ name, scope string }
 
-//verif:harness id=C07 tier=quick,thorough witness=end bounds="security: operation list in 8 shapes (nil, [], [{}], [{A}], [{A,B}], [{A},{B}], [{U undeclared}], [{U},{B}]) x document list in 4 shapes x authentication verdict per scheme symbolic; MultiError symbolic; parameters and body absent from the operation"
+//verif:harness id=C07 tier=quick,thorough witness=end bounds="security: operation list in 9 shapes (nil, [], [{}], [{A}], [{A,B}], [{A},{B}], [{U undeclared}], [{U},{B}], [{A,U}]) x document list in 4 shapes x authentication verdict per scheme name symbolic (the undeclared name included: the callback would accept it if it were asked); MultiError symbolic; parameters and body absent from the operation"
 func verifH_C07_security() {
-	opSec, _ := verifSecList("opSec", 8)
+	opSec, _ := verifSecList("opSec", 9)
 	docSecP, _ := verifSecList("docSec", 4)
 	var docSec openapi3.SecurityRequirements
 	if docSecP != nil {
 		docSec = *docSecP
 	}
-	authOK := map[string]bool{"A": verifNondetBool("authA"), "B": verifNondetBool("authB")}
+	authOK := map[string]bool{"A": verifNondetBool("authA"), "B": verifNondetBool("authB"), "U": verifNondetBool("authU")}
 	var calls []verifAuthCall
 	spec := &openapi3.T{Security: docSec, Components: &openapi3.Components{SecuritySchemes: openapi3.SecuritySchemes{
 		"A": &openapi3.SecuritySchemeRef{Value: &openapi3.SecurityScheme{Type: "http", Scheme: "basic"}},
